@@ -21,7 +21,8 @@ CONSTANTS Threads,      \* client threads
           MaxUnblock,   \* bound on number of unblock_pop() calls
           MaxSize,      \* bound on number of size()/empty() calls
           Void,         \* TRUE: queue<void>
-          AllowDestroy  \* TRUE: the queue may be destroyed while pops are parked
+          AllowDestroy, \* TRUE: the queue may be destroyed while pops are parked
+          AllowThrow    \* TRUE: a push may fail because the item's constructor throws
 
 VARIABLES items,     \* _queue: sequence of values
           waiters,   \* _awaiters: sequence of pop ids whose promise is parked
@@ -61,6 +62,15 @@ PushCS(t) ==
               /\ ret' = [ret EXCEPT ![t] = "false"]
               /\ UNCHANGED <<waiters, hold, pc>>
     /\ UNCHANGED <<fut, npop, nunb, nsize, destroyed>>
+
+(* a push whose item constructor throws (not twice in a row, to keep the model finite without a counter): whatever
+   branch it would have taken - room or hand-over to a parked pop - NOTHING changes but the caller's result; in
+   particular the parked pop stays parked (since 3c3638a the item is built before the waiter is taken) *)
+PushThrow(t) ==
+    /\ AllowThrow /\ ~Void
+    /\ ~destroyed /\ pc[t] = "idle" /\ ret[t] # "threw"
+    /\ ret' = [ret EXCEPT ![t] = "threw"]
+    /\ UNCHANGED <<items, waiters, fut, pc, hold, npush, npop, nunb, nsize, destroyed>>
 
 (* the promise call `p(args...)` after lk.unlock(), queue.h:152-153 *)
 PushResolve(t) ==
@@ -122,7 +132,7 @@ Destroy ==
     /\ items' = <<>>
     /\ UNCHANGED <<pc, hold, ret, npush, npop, nunb, nsize>>
 
-Next == \/ \E t \in Threads : PushCS(t) \/ PushResolve(t) \/ PopCS(t) \/ UnblockCS(t) \/ UnblockResolve(t) \/ SizeCS(t)
+Next == \/ \E t \in Threads : PushCS(t) \/ PushThrow(t) \/ PushResolve(t) \/ PopCS(t) \/ UnblockCS(t) \/ UnblockResolve(t) \/ SizeCS(t)
         \/ Destroy
 
 Spec == Init /\ [][Next]_vars /\ WF_vars(\E t \in Threads : PushResolve(t) \/ UnblockResolve(t))
